@@ -197,6 +197,7 @@ var scenarios3 = []scenario{
 	{Name: "deployed: upgrade‖upgrade‖install", Setup: atLimit(1), Ops: []env.Op{up(0), up(0), inst(false)}},
 	{Name: "empty: install‖upgrade‖upgrade", Ops: []env.Op{inst(false), up(0), up(0)}},
 	{Name: "at limit 2: upgrade‖upgrade‖upgrade max-history=2", Setup: atLimit(2), Ops: []env.Op{up(2), up(2), up(2)}},
+	{Name: "at limit 3: upgrade‖upgrade‖upgrade max-history=3", Setup: atLimit(3), Ops: []env.Op{up(3), up(3), up(3)}},
 }
 
 // opLabel names an op by kind and the flags that select a code path (witness classes use it).
@@ -206,7 +207,10 @@ func opLabel(o env.Op) string {
 		s += " --replace"
 	}
 	if o.MaxHistory > 0 {
-		s += " --history-max"
+		// the limit is part of the witness class: which record the pruning step of
+		// Storage.Create may remove depends on it (a limit <= 2 leaves nothing older than the
+		// protected deployed revision to prune)
+		s += fmt.Sprintf(" --history-max=%d", o.MaxHistory)
 	}
 	if o.Atomic {
 		s += " --atomic"
